@@ -23,7 +23,7 @@ FLOORS = {'quick': {'insert-accepted': 400, 'probe-lib': 4000, 'probe-defn': 400
                     'hook:knot_insertion': 300},
           'thorough': {'insert-accepted': 5000, 'probe-lib': 50000}}
 MANDATORY_TAGS = ['pdim1', 'pdim2', 'pdim3', 'twins', 'rational', 'on-knot', 'in-span', 'multi-dir', 'via:method', 'via:operations',
-                  'r>=2', 'unnormalized', 'dir:u', 'dir:v', 'dir:w', 'same-value-again']
+                  'r>=2', 'unnormalized', 'dir:u', 'dir:v', 'dir:w', 'same-value-again', 'unclamped', 'on-domain-end']
 TECHNIQUE = ("runtime monitoring: shadow-model oracle (exact reference of the original definition) evaluated after every step of "
              "a seeded insertion history, plus an all-call post-condition hook on helpers.knot_insertion/_kv")
 LEVEL_TEXT = ("Every insertion the workload performs is followed by an exact comparison of the live object and of its new "
@@ -127,7 +127,8 @@ def gen(rng, tier, shard, nshards):
             kw = dict(pdim=rng.choice([1, 1, 2, 2, 3]), normalize=rng.random() < 0.7)
         pd = kw.pop('pdim')
         kw.setdefault('maxextra', {1: 6, 2: 4, 3: 2}[pd])
-        sd = G.rand_shape(rng, pd, clamped_only=True, **kw)
+        unclamped = 'kvcls' not in kw and rng.random() < 0.25
+        sd = G.rand_shape(rng, pd, clamped_only=not unclamped, **(dict(kw, kvcls=rng.choice(['unclamped', 'unclamped_rep'])) if unclamped else kw))
         yield {'kind': 'history', 'sd': sd, 'seed': rng.randrange(1 << 30), 'steps': rng.randint(1, 8 if pd < 3 else 4)}
         if i % 3 == 1:
             # histories that insert the caller's own parameter value again (parameters 1e-3..1e-2 of the range from a domain end included)
@@ -220,6 +221,8 @@ def check(case, ctx):
     sc = so.scale_of_defn(S0)
     tol = 1e-9 * sc
     probes = so.probe_params(rng, S0, nrand=6, maxn=30 if pdim < 3 else 14)
+    if any(kv[0] != kv[p_] or kv[-1] != kv[-p_ - 1] for kv, p_ in zip(sd['kvs'], sd['degrees'])):
+        ctx.tag('unclamped')
     ctx.tag('pdim%d' % pdim, 'rational' if sd['rational'] else 'nonrational',
             'normalized' if sd['normalize_kv'] else 'unnormalized')
     accepted = 0
